@@ -43,10 +43,11 @@ Proof.
   unfold d_mem, tmem. rewrite d_find_tbl. destruct (tlookup s t); reflexivity.
 Qed.
 
-Theorem equilibrium_method_prelude_refines t m :
+(* the function handed to the method is the fixed-point map itself exactly when a fixed-point method runs, y - f(y) otherwise *)
+Theorem equilibrium_method_prelude_refines t m pf nf :
   let m' := lower_meth (with_default "broyden1"%string m) in
-  equilibrium_method_prelude (meth_obj m) (tbl_obj t) =
-  Ok (meth_obj m', if in_table m' t then "equilibrium"%string else "rootfinder"%string).
+  equilibrium_method_prelude (meth_obj m) pf nf (tbl_obj t) =
+  Ok (meth_obj m', if in_table m' t then "equilibrium"%string else "rootfinder"%string, if in_table m' t then pf else nf).
 Proof.
   cbn zeta. unfold equilibrium_method_prelude, equil_default_method, rf_default_method.
   destruct m as [|s|i|]; cbn [meth_obj is_none is_str with_default lower_meth bind obj_str].
